@@ -57,49 +57,36 @@ Lemma In_upto t l e : In e (upto t l) <-> In e l /\ fe_time e <= t.
 Proof. unfold upto. rewrite filter_In. intuition lia. Qed.
 
 (* ------------------------------------------------------------------ *)
-(** * Last writer *)
+(** * Last relevant event *)
 
-Fixpoint last_rel (x : Z) (l : list fev) : option fev :=
+Fixpoint last_rel (rel : fev -> bool) (l : list fev) : option fev :=
   match l with
   | [] => None
-  | e :: r => match last_rel x r with
+  | e :: r => match last_rel rel r with
               | Some e' => Some e'
-              | None => if fe_tgt e =? x then Some e else None
+              | None => if rel e then Some e else None
               end
   end.
 
-Definition wr (write : Z -> Z -> Z) (cfg : Z -> Z) (x : Z) (e : fev) : Z :=
-  if fe_on e then write (cfg x) (fe_p e) else cfg x.
-
-Lemma reg_run_last write cfg x : forall l st,
-  fold_left (reg_step write cfg) l st x =
-  match last_rel x l with Some e => wr write cfg x e | None => st x end.
-Proof.
-  induction l as [|e r IH]; intros st; cbn; [reflexivity|].
-  rewrite IH. destruct (last_rel x r); [reflexivity|].
-  unfold reg_step, upd, wr. rewrite (Z.eqb_sym x). destruct (fe_tgt e =? x) eqn:E; [|reflexivity].
-  apply Z.eqb_eq in E. now rewrite E.
-Qed.
-
-Lemma last_rel_none x l : last_rel x l = None -> forall e, In e l -> fe_tgt e <> x.
+Lemma last_rel_none rel l : last_rel rel l = None -> forall e, In e l -> rel e = false.
 Proof.
   induction l as [|a r IH]; cbn; intros H e; [intros []|].
-  destruct (last_rel x r); [discriminate|]. destruct (fe_tgt a =? x) eqn:E; [discriminate|].
-  intros [<-|Hi]; [lia|]. now apply IH.
+  destruct (last_rel rel r); [discriminate|]. destruct (rel a) eqn:E; [discriminate|].
+  intros [<-|Hi]; [exact E|]. now apply IH.
 Qed.
 
-Lemma last_rel_max x l : StronglySorted kle l -> forall e, last_rel x l = Some e ->
-  In e l /\ fe_tgt e = x /\ forall e', In e' l -> fe_tgt e' = x -> kle e' e.
+Lemma last_rel_max rel l : StronglySorted kle l -> forall e, last_rel rel l = Some e ->
+  In e l /\ rel e = true /\ forall e', In e' l -> rel e' = true -> kle e' e.
 Proof.
   induction 1 as [|a r Hs IH Hf]; cbn; intros e H; [discriminate|].
   rewrite Forall_forall in Hf.
-  destruct (last_rel x r) as [e0|] eqn:L.
+  destruct (last_rel rel r) as [e0|] eqn:L.
   - injection H as <-. destruct (IH e0 eq_refl) as (Hi & Ht & Hm). repeat split; auto.
     intros e' [<-|Hi'] Hx; [now apply Hf|now apply Hm].
-  - destruct (fe_tgt a =? x) eqn:E; [|discriminate]. injection H as <-.
-    repeat split; [now left|lia|]. intros e' [<-|Hi'] Hx.
+  - destruct (rel a) eqn:E; [|discriminate]. injection H as <-.
+    repeat split; [now left|exact E|]. intros e' [<-|Hi'] Hx.
     + apply kle_iff; lia.
-    + exfalso. exact (last_rel_none _ _ L _ Hi' Hx).
+    + exfalso. rewrite (last_rel_none _ _ L _ Hi') in Hx. discriminate.
 Qed.
 
 (* ------------------------------------------------------------------ *)
@@ -117,44 +104,142 @@ Proof.
   rewrite In_upto, In_delivered, In_events_from. cbn. tauto.
 Qed.
 
+Lemma stream_sorted sched t : StronglySorted kle (upto t (delivered sched)).
+Proof. apply SS_filter, delivered_sorted. Qed.
+
 Lemma kept_on k w : kept (ev_on k w) = act_delivered w.
 Proof. reflexivity. Qed.
 
 Lemma kept_off k w te : w_e w = Some te -> kept (ev_off k w te) = deact_delivered w.
 Proof. intros H. unfold kept, deact_delivered. rewrite H. reflexivity. Qed.
 
-Lemma active_false sched x t : active sched x t = false ->
-  forall w, In w sched -> w_tgt w = x -> covers w t = false.
+(** Generic "some relevant window is in force". *)
+Definition activeG (relw : win -> bool) (sched : list win) (t : Z) : bool :=
+  existsb (fun w => relw w && covers w t) sched.
+
+Lemma activeG_false relw sched t : activeG relw sched t = false ->
+  forall w, In w sched -> relw w = true -> covers w t = false.
 Proof.
-  unfold active. intros H w Hi Hx.
+  unfold activeG. intros H w Hi Hx.
   destruct (covers w t) eqn:C; [|reflexivity].
-  assert (existsb (fun w => (w_tgt w =? x) && covers w t) sched = true); [|congruence].
-  apply existsb_exists. exists w. split; [exact Hi|]. rewrite C. lia.
+  assert (existsb (fun w => relw w && covers w t) sched = true); [|congruence].
+  apply existsb_exists. exists w. split; [exact Hi|]. now rewrite C, Hx.
 Qed.
 
-(* ------------------------------------------------------------------ *)
-(** * T1: outside every window the setting is the configured one (ANY schedule) *)
+Definition ends_before (a b : win) : Prop :=
+  exists e, w_e a = Some e /\ deact_delivered a = true /\ e < w_s b.
 
+(** Relevant windows whose activation is delivered are pairwise strictly separated. *)
+Definition separatedG (relw : win -> bool) (sched : list win) : Prop :=
+  forall (i j : nat) a b, i <> j -> nth_error sched i = Some a -> nth_error sched j = Some b ->
+    relw a = true -> relw b = true -> act_delivered a = true -> act_delivered b = true ->
+    ends_before a b \/ ends_before b a.
+
+Section Generic.
+  (** [rele] selects the events that write the observed location; it depends
+      only on the window the event was generated from. *)
+  Variable relw : win -> bool.
+  Variable rele : fev -> bool.
+  Hypothesis rele_on : forall k w, rele (ev_on k w) = relw w.
+  Hypothesis rele_off : forall k w te, rele (ev_off k w te) = relw w.
+
+  (** G1: when no relevant window is in force, the last relevant closure that
+      ran (if any) is a deactivation.  ANY schedule. *)
+  Lemma last_is_off sched t : wf sched -> activeG relw sched t = false ->
+    forall e, last_rel rele (upto t (delivered sched)) = Some e -> fe_on e = false.
+  Proof.
+    intros Hwf Hact e L.
+    destruct (last_rel_max _ _ (stream_sorted sched t) _ L) as (Hin & Hrel & Hmax).
+    apply In_stream in Hin. destruct Hin as (Ht & Hk & k & w & Hn & [->|(te & He & ->)]); [|reflexivity].
+    exfalso. cbn in Ht. rewrite kept_on in Hk. rewrite rele_on in Hrel.
+    assert (Hw : In w sched) by (eapply nth_error_In; eauto).
+    pose proof (activeG_false _ _ _ Hact w Hw Hrel) as C.
+    pose proof (Hwf w Hw) as W. unfold wf_win in W.
+    unfold covers in C. rewrite Hk in C. cbn in C.
+    destruct (w_e w) as [te|] eqn:E; [|lia].
+    destruct (deact_delivered w) eqn:D; [|lia].
+    assert (Hoff : In (ev_off (Z.of_nat k) w te) (upto t (delivered sched))).
+    { apply In_stream. cbn. split; [lia|]. split; [now rewrite kept_off|]. exists k, w. split; [exact Hn|].
+      right. now exists te. }
+    assert (Hr : rele (ev_off (Z.of_nat k) w te) = true) by now rewrite rele_off.
+    specialize (Hmax _ Hoff Hr). apply kle_iff in Hmax. cbn in Hmax. lia.
+  Qed.
+
+  (** G2: with strictly separated relevant windows, during window [w] the last
+      relevant closure that ran is [w]'s own activation. *)
+  Lemma last_is_own_on sched : wf sched -> separatedG relw sched ->
+    forall w t, In w sched -> relw w = true -> covers w t = true ->
+    exists k : nat, nth_error sched k = Some w /\
+      last_rel rele (upto t (delivered sched)) = Some (ev_on (Z.of_nat k) w).
+  Proof.
+    intros Hwf Hsep w t Hw Hrel Hcov.
+    destruct (In_nth_error _ _ Hw) as (k & Hk). exists k. split; [exact Hk|].
+    unfold covers in Hcov. apply andb_prop in Hcov. destruct Hcov as (Hc1 & Hc3).
+    apply andb_prop in Hc1. destruct Hc1 as (Hc1 & Hc2).
+    assert (Hon : In (ev_on (Z.of_nat k) w) (upto t (delivered sched))).
+    { apply In_stream. cbn. split; [lia|]. split; [now rewrite kept_on|]. exists k, w. split; [exact Hk|now left]. }
+    assert (Hron : rele (ev_on (Z.of_nat k) w) = true) by now rewrite rele_on.
+    destruct (last_rel rele (upto t (delivered sched))) as [e|] eqn:L.
+    2:{ exfalso. rewrite (last_rel_none _ _ L _ Hon) in Hron. discriminate. }
+    destruct (last_rel_max _ _ (stream_sorted sched t) _ L) as (Hin & Het & Hmax).
+    specialize (Hmax _ Hon Hron). apply kle_iff in Hmax. cbn in Hmax.
+    apply In_stream in Hin. destruct Hin as (Hte & Hke & j & w' & Hj & Hform).
+    assert (Hw' : In w' sched) by (eapply nth_error_In; eauto).
+    pose proof (Hwf w' Hw') as W'. unfold wf_win in W'.
+    destruct (Nat.eq_dec j k) as [->|Hjk].
+    - rewrite Hk in Hj. injection Hj as <-.
+      destruct Hform as [->|(te & He & ->)]; [reflexivity|].
+      exfalso. cbn in Hte. rewrite (kept_off _ _ _ He) in Hke. rewrite He, Hke in Hc3. lia.
+    - exfalso.
+      assert (Hrel' : relw w' = true).
+      { destruct Hform as [->|(te & He & ->)]; [now rewrite rele_on in Het|now rewrite rele_off in Het]. }
+      assert (Hact' : act_delivered w' = true).
+      { destruct Hform as [->|(te & He & ->)]; [now rewrite kept_on in Hke|].
+        rewrite (kept_off _ _ _ He) in Hke. unfold deact_delivered in Hke. rewrite He in Hke, W'.
+        unfold act_delivered. destruct (w_c w'); [lia|reflexivity]. }
+      assert (Hs' : w_s w' <= fe_time e)
+        by (destruct Hform as [->|(te & He & ->)]; cbn; [lia|rewrite He in W'; exact W']).
+      destruct (Hsep k j w w' (fun E => Hjk (eq_sym E)) Hk Hj Hrel Hrel' Hc1 Hact')
+        as [(ee & He & Hd & Hlt)|(ee & He & Hd & Hlt)].
+      + rewrite He, Hd in Hc3. lia.
+      + assert (fe_time e <= ee); [|lia].
+        destruct Hform as [->|(te & He' & ->)]; cbn; rewrite He in W'; [lia|].
+        rewrite He in He'. injection He' as ->. lia.
+  Qed.
+End Generic.
+
+(* ------------------------------------------------------------------ *)
+(** * Register faults *)
+
+Definition wr (write : Z -> Z -> Z) (cfg : Z -> Z) (x : Z) (e : fev) : Z :=
+  if fe_on e then write (cfg x) (fe_p e) else cfg x.
+
+Definition rel_tgt (x : Z) (e : fev) : bool := fe_tgt e =? x.
+Definition relw_tgt (x : Z) (w : win) : bool := w_tgt w =? x.
+
+Lemma reg_run_last write cfg x : forall l st,
+  fold_left (reg_step write cfg) l st x =
+  match last_rel (rel_tgt x) l with Some e => wr write cfg x e | None => st x end.
+Proof.
+  induction l as [|e r IH]; intros st; cbn; [reflexivity|].
+  rewrite IH. destruct (last_rel (rel_tgt x) r); [reflexivity|].
+  unfold reg_step, upd, wr, rel_tgt. rewrite (Z.eqb_sym x). destruct (fe_tgt e =? x) eqn:E; [|reflexivity].
+  apply Z.eqb_eq in E. now rewrite E.
+Qed.
+
+Definition separated (sched : list win) (x : Z) : Prop := separatedG (relw_tgt x) sched.
+
+Lemma active_activeG sched x t : active sched x t = activeG (relw_tgt x) sched t.
+Proof. reflexivity. Qed.
+
+(** T1: outside every window the setting is the configured one (ANY schedule). *)
 Theorem inactive_configured write cfg sched : wf sched ->
   forall x t, active sched x t = false -> reg_at write cfg sched t x = cfg x.
 Proof.
   intros Hwf x t Hact. unfold reg_at, reg_run. rewrite reg_run_last.
-  destruct (last_rel x (upto t (delivered sched))) as [e|] eqn:L; [|reflexivity].
-  assert (Hss : StronglySorted kle (upto t (delivered sched))) by (apply SS_filter, delivered_sorted).
-  destruct (last_rel_max _ _ Hss _ L) as (Hin & Htgt & Hmax).
-  apply In_stream in Hin. destruct Hin as (Ht & Hk & k & w & Hn & [->|(te & He & ->)]);
-    [|unfold wr; reflexivity].
-  exfalso. cbn in Htgt, Ht. rewrite kept_on in Hk.
-  assert (Hw : In w sched) by (eapply nth_error_In; eauto).
-  pose proof (active_false _ _ _ Hact w Hw Htgt) as C.
-  pose proof (Hwf w Hw) as W. unfold wf_win in W.
-  unfold covers in C. rewrite Hk in C. cbn in C.
-  destruct (w_e w) as [te|] eqn:E; [|lia].
-  destruct (deact_delivered w) eqn:D; [|lia].
-  assert (Hoff : In (ev_off (Z.of_nat k) w te) (upto t (delivered sched))).
-  { apply In_stream. cbn. split; [lia|]. split; [now rewrite kept_off|]. exists k, w. split; [exact Hn|].
-    right. now exists te. }
-  specialize (Hmax _ Hoff Htgt). apply kle_iff in Hmax. cbn in Hmax. lia.
+  destruct (last_rel (rel_tgt x) (upto t (delivered sched))) as [e|] eqn:L; [|reflexivity].
+  rewrite active_activeG in Hact.
+  unfold wr. erewrite (last_is_off (relw_tgt x) (rel_tgt x)); eauto.
 Qed.
 
 (** Contrapositive: an effect is only ever seen while some window is active. *)
@@ -165,54 +250,16 @@ Proof.
   exfalso. apply H. now apply inactive_configured.
 Qed.
 
-(* ------------------------------------------------------------------ *)
-(** * T2: separated windows — the effect is in force exactly during the window *)
-
-Definition ends_before (a b : win) : Prop :=
-  exists e, w_e a = Some e /\ deact_delivered a = true /\ e < w_s b.
-
-(** Windows on one target whose activation is delivered are pairwise strictly separated. *)
-Definition separated (sched : list win) (x : Z) : Prop :=
-  forall (i j : nat) a b, i <> j -> nth_error sched i = Some a -> nth_error sched j = Some b ->
-    w_tgt a = x -> w_tgt b = x -> act_delivered a = true -> act_delivered b = true ->
-    ends_before a b \/ ends_before b a.
-
+(** T2: separated windows — the effect is in force during the whole window. *)
 Theorem separated_effect write cfg sched x : wf sched -> separated sched x ->
   forall w t, In w sched -> w_tgt w = x -> covers w t = true ->
   reg_at write cfg sched t x = write (cfg x) (w_p w).
 Proof.
   intros Hwf Hsep w t Hw Htgt Hcov.
-  destruct (In_nth_error _ _ Hw) as (k & Hk).
-  unfold covers in Hcov. apply andb_prop in Hcov. destruct Hcov as (Hc1 & Hc3).
-  apply andb_prop in Hc1. destruct Hc1 as (Hc1 & Hc2).
-  assert (Hon : In (ev_on (Z.of_nat k) w) (upto t (delivered sched))).
-  { apply In_stream. cbn. split; [lia|]. split; [now rewrite kept_on|]. exists k, w. split; [exact Hk|now left]. }
-  unfold reg_at, reg_run. rewrite reg_run_last.
-  assert (Hss : StronglySorted kle (upto t (delivered sched))) by (apply SS_filter, delivered_sorted).
-  destruct (last_rel x (upto t (delivered sched))) as [e|] eqn:L.
-  2:{ exfalso. exact (last_rel_none _ _ L _ Hon Htgt). }
-  destruct (last_rel_max _ _ Hss _ L) as (Hin & Het & Hmax).
-  specialize (Hmax _ Hon Htgt). apply kle_iff in Hmax. cbn in Hmax.
-  apply In_stream in Hin. destruct Hin as (Hte & Hke & j & w' & Hj & Hform).
-  assert (Hw' : In w' sched) by (eapply nth_error_In; eauto).
-  pose proof (Hwf w' Hw') as W'. unfold wf_win in W'.
-  destruct (Nat.eq_dec j k) as [->|Hjk].
-  - rewrite Hk in Hj. injection Hj as <-.
-    destruct Hform as [->|(te & He & ->)]; [reflexivity|].
-    exfalso. cbn in Hte. rewrite (kept_off _ _ _ He) in Hke. rewrite He, Hke in Hc3. lia.
-  - exfalso.
-    assert (Htgt' : w_tgt w' = x) by (destruct Hform as [->|(te & He & ->)]; exact Het).
-    assert (Hact' : act_delivered w' = true).
-    { destruct Hform as [->|(te & He & ->)]; [now rewrite kept_on in Hke|].
-      rewrite (kept_off _ _ _ He) in Hke. unfold deact_delivered in Hke. rewrite He in Hke, W'.
-      unfold act_delivered. destruct (w_c w'); [lia|reflexivity]. }
-    assert (Hs' : w_s w' <= fe_time e)
-      by (destruct Hform as [->|(te & He & ->)]; cbn; [lia|rewrite He in W'; exact W']).
-    destruct (Hsep k j w w' (fun E => Hjk (eq_sym E)) Hk Hj Htgt Htgt' Hc1 Hact')
-      as [(ee & He & Hd & Hlt)|(ee & He & Hd & Hlt)].
-    + rewrite He, Hd in Hc3. lia.
-    + assert (fe_time e <= ee); [|lia].
-      destruct Hform as [->|(te & He' & ->)]; cbn; rewrite He in W'; [lia|]. rewrite He in He'. injection He' as ->. lia.
+  assert (Hrel : relw_tgt x w = true) by (unfold relw_tgt; lia).
+  destruct (last_is_own_on (relw_tgt x) (rel_tgt x) (fun _ _ => eq_refl) (fun _ _ _ => eq_refl)
+              sched Hwf Hsep w t Hw Hrel Hcov) as (k & _ & L).
+  unfold reg_at, reg_run. rewrite reg_run_last, L. reflexivity.
 Qed.
 
 (* ------------------------------------------------------------------ *)
@@ -292,13 +339,12 @@ Theorem untargeted_unchanged write cfg sched y :
   (forall w, In w sched -> w_tgt w <> y) -> forall t, reg_at write cfg sched t y = cfg y.
 Proof.
   intros Hno t. unfold reg_at, reg_run. rewrite reg_run_last.
-  destruct (last_rel y (upto t (delivered sched))) as [e|] eqn:L; [|reflexivity].
+  destruct (last_rel (rel_tgt y) (upto t (delivered sched))) as [e|] eqn:L; [|reflexivity].
   exfalso.
-  assert (Hss : StronglySorted kle (upto t (delivered sched))) by (apply SS_filter, delivered_sorted).
-  destruct (last_rel_max _ _ Hss _ L) as (Hin & Htgt & _).
+  destruct (last_rel_max _ _ (stream_sorted sched t) _ L) as (Hin & Htgt & _).
   apply In_stream in Hin. destruct Hin as (_ & _ & k & w & Hn & Hform).
-  apply (Hno w (nth_error_In _ _ Hn)).
-  destruct Hform as [->|(te & _ & ->)]; exact Htgt.
+  apply (Hno w (nth_error_In _ _ Hn)). unfold rel_tgt in Htgt.
+  destruct Hform as [->|(te & _ & ->)]; cbn in Htgt; lia.
 Qed.
 
 (** The hypotheses of the conditional theorems are satisfiable. *)
@@ -308,7 +354,7 @@ Example separated_example :
 Proof.
   split.
   - intros w [<-|[<-|[<-|[]]]]; cbn; lia.
-  - intros i j a b Hij Hi Hj Ha Hb _ _.
+  - intros i j a b Hij Hi Hj Ha Hb _ _. unfold relw_tgt in Ha, Hb.
     destruct i as [|[|[|i]]]; destruct j as [|[|[|j]]]; cbn in Hi, Hj;
       try congruence; try (injection Hi as <-); try (injection Hj as <-);
       try (cbn in Ha; discriminate); try (cbn in Hb; discriminate);
